@@ -83,3 +83,39 @@ Definition proxy_relay_decision (cfg : proxy_cfg) (raw : bytes) (pu : parsed_url
       then Refuse
       else if nonempty then DialBrokerURL else DialConfigured
   end.
+
+(* ---------------- histories ----------------
+   Both decisions are taken afresh for every request: neither CheckProxyRelayPattern nor runSession keeps
+   anything from one request to the next (the matchers are rebuilt from the configured strings each time).
+   The machines below make that explicit; they are what a long-lived broker context / a long-lived
+   SnowflakeProxy is compared with, request by request (Run ops pollseq / urlseq / urlseqfull). *)
+
+(* what reaches the relay-pattern gate of one BrokerContext over its life time *)
+Inductive broker_event :=
+| EvPoll (pat : option bytes)          (* IPC.ProxyPolls; AcceptedRelayPattern decoded as in [broker_accepts_poll] *)
+| EvInstall (cfg : broker_cfg).        (* ctx.InstallBridgeListProfile(_, allowed, presumed): start-up and every SIGHUP *)
+
+(* one answer per event, aligned with the events: Some accepted? for a poll, None for a (re)configuration *)
+Fixpoint broker_run (cfg : broker_cfg) (evs : list broker_event) : list (option bool) :=
+  match evs with
+  | [] => []
+  | EvPoll pat :: r => Some (broker_accepts_poll cfg pat) :: broker_run cfg r
+  | EvInstall c :: r => None :: broker_run c r
+  end.
+
+(* the configuration in force after a history *)
+Fixpoint broker_cfg_after (cfg : broker_cfg) (evs : list broker_event) : broker_cfg :=
+  match evs with
+  | [] => cfg
+  | EvPoll _ :: r => broker_cfg_after cfg r
+  | EvInstall c :: r => broker_cfg_after c r
+  end.
+
+(* the relay URLs one SnowflakeProxy is handed by its broker, one per session, each with what url.Parse makes of it *)
+Definition relay_offer := (bytes * parsed_url)%type.
+
+Fixpoint proxy_run (cfg : proxy_cfg) (offers : list relay_offer) : list relay_decision :=
+  match offers with
+  | [] => []
+  | (raw, pu) :: r => proxy_relay_decision cfg raw pu :: proxy_run cfg r
+  end.
